@@ -7,6 +7,7 @@ From Coq Require Import String.
 From Coq Require Import ZArith Bool List Lia.
 From GoSecs Require Import Base.GoInt Base.BytesBE Base.GoSlice Gen.Gen2.
 From GoSecs Require Import Secs1.Block Gen.Bridge2Secs1.
+From GoSecs Require Secs2.Encode Gen.Bridge2Secs2.
 Import ListNotations.
 Open Scope Z_scope.
 
@@ -34,3 +35,16 @@ Theorem tie_secs1_parseBlock : forall lb rest,
   Gen2.secs1.parseBlock lb rest = GOk (parse_result_of (parse_block lb rest)).
 Proof. exact bridge_parseBlock. Qed.
 Print Assumptions tie_secs1_parseBlock.
+
+(** * C01 / C03 — secs2/item.go *)
+
+(** [appendHeaderBytesFC]: for every destination, every 6-bit format code and EVERY length field:
+    no panic; a length field above MaxByteSize (2^24-1) is refused with [dst] untouched, otherwise
+    the bytes appended are [header fc n] (format byte + minimal big-endian length bytes). *)
+Theorem tie_secs2_appendHeaderBytesFC : forall dst fc n,
+  0 <= fc < 64 ->
+  Gen2.secs2.appendHeaderBytesFC dst fc n =
+  GOk (if n >? 16777215 then (dst, ErrNew "size limit exceeded"%string)
+       else (dst ++ Secs2.Encode.header fc n, ErrNil)).
+Proof. exact Bridge2Secs2.bridge_appendHeaderBytesFC. Qed.
+Print Assumptions tie_secs2_appendHeaderBytesFC.
